@@ -648,34 +648,26 @@ impl<'a> Searcher<'a> {
                         Ok(entry) => {
                             let mut path = entry.path();
                             let pass_ignores = if apply_gitignore || apply_hgignore || apply_dockerignore {
-                                let mut canonical_path = path.clone();
+                                // Check the path against the filters: the entry's own absolute path. Its
+                                // directory is resolved, its name kept, so that a link is judged by its own
+                                // name as the tools judge it, not by the name of what it points to.
+                                // (libgit2 takes a path from the top of the work tree, or an absolute one: a
+                                // path relative to the current directory would be taken for another file.)
+                                let canonical_path = path
+                                    .parent()
+                                    .and_then(|parent| {
+                                        crate::util::canonical_path(&parent.to_path_buf()).ok()
+                                    })
+                                    .map(|dir| PathBuf::from(dir).join(entry.file_name()))
+                                    .unwrap_or(path.clone());
 
-                                if apply_gitignore || apply_hgignore || apply_dockerignore {
-                                    if let Ok(canonicalized) = crate::util::canonical_path(&path) {
-                                        canonical_path = PathBuf::from(canonicalized);
-                                    }
-                                }
-
-                                // Check the path against the filters
-                                // libgit2 takes a path from the top of the work tree, or an absolute one: a
-                                // path relative to the current directory (`./x`, or anything when the search
-                                // starts elsewhere than at the top) would be taken for another file. The
-                                // directory is resolved, the entry's own name kept (a link is judged itself)
                                 #[cfg(feature = "git")]
                                 let pass_gitignore = !apply_gitignore
-                                    || !(git_repository.is_some() && {
-                                        let git_path = path
-                                            .parent()
-                                            .and_then(|parent| {
-                                                crate::util::canonical_path(&parent.to_path_buf()).ok()
-                                            })
-                                            .map(|dir| PathBuf::from(dir).join(entry.file_name()))
-                                            .unwrap_or(path.clone());
-                                        git_repository
+                                    || !(git_repository.is_some()
+                                        && git_repository
                                             .unwrap()
-                                            .is_path_ignored(&git_path)
-                                            .unwrap_or(false)
-                                    });
+                                            .is_path_ignored(&canonical_path)
+                                            .unwrap_or(false));
                                 #[cfg(not(feature = "git"))]
                                 let pass_gitignore = true;
 
